@@ -6,7 +6,7 @@ from hypothesis import strategies as st
 
 from vf.core import Obs
 from vf.lab import lab_spec
-from vf.prog import ops_list, World, execute, expect_sequential, flat_pairs, label_st, model_apply, resolve, vs_ok, vsel, wsel
+from vf.prog import ops_list, World, execute, expect_sequential, flat_pairs, label_st, model_apply, model_resync, resolve, vs_bad, vs_ok, vsel, wsel
 
 PID = "C04"
 RULE = (
@@ -27,7 +27,7 @@ KNOWN_KINDS = {}
 
 
 STRATA = ["add", "remove", "aspirate", "dispense"]
-REQUIRED_CLASSES = ["via:add", "via:remove", "via:aspirate", "via:dispense", "2-D-volumes", "1-D-volumes-vs-2-D-wells", "repeated-well", "virtual-row-alias", "2x2-or-larger"]
+REQUIRED_CLASSES = ["accepted-after-refused", "via:add", "via:remove", "via:aspirate", "via:dispense", "2-D-volumes", "1-D-volumes-vs-2-D-wells", "repeated-well", "virtual-row-alias", "2x2-or-larger"]
 
 
 @st.composite
@@ -40,9 +40,11 @@ def _case(draw, focus, tier="quick"):
             "op": st.sampled_from(kinds),
             "lw": st.just(0),
             "wells": wsel(max_n=6),
-            "vols": vsel(vs_ok(q), max_n=6),
+            "vols": vsel(st.one_of(*([vs_ok(q)] * 7), vs_bad()), max_n=6),
             "label": label_st,
             "ints": st.booleans(),
+            # what the caller says about the added liquid must not matter for the volumes
+            "comps": st.sampled_from([None, None, None, "empty", "nones", 1, 3]),
         }
     )
     # a genuinely 2-D call: >= 2x2 wells with pairwise different volumes given as a 2-D array or as a flat list
@@ -89,19 +91,39 @@ def check_case(case) -> Obs:
     obs.cls("kind:" + spec["kind"], "stream:" + ("dyadic" if q else "float"))
     accepted = 0
     interesting = False
+    refused_before = False
+    exact = bool(q)
     shape = (1 if spec["kind"] == "trough" else spec["rows"], spec["cols"])
     for k, op in enumerate(case["ops"]):
         conc = resolve(world, op)
         pairs = flat_pairs(world, conc)
         verdict, _ = expect_sequential(world, pairs)
-        if verdict != "accept":
-            obs.cls("skipped:" + verdict)
-            continue
         step = execute(world, conc)
         obs.units += 1
+        if verdict != "accept":
+            # a call that is (or may be) refused: whether it is, is C02's subject. Here: wells it did not address are
+            # unchanged, and whatever it left behind is the basis of the exact bookkeeping of the calls that follow.
+            obs.cls("not-accepted:" + verdict + (":raised" if step.exc is not None else ":returned"))
+            touched = {idx for _, idx, _, _ in pairs}
+            vols = lw.volumes
+            for idx in model.wells():
+                if idx not in touched and float(vols[idx]).hex() != float(step.pre[0][idx]).hex():
+                    obs.bad("C04/frame", f"op {k} {conc['op']} on {conc['wells']['ids']} ({verdict}, {type(step.exc).__name__ if step.exc else 'returned'}) changed the unaddressed well {idx}: {float(step.pre[0][idx])!r} -> {float(vols[idx])!r}")
+                    break
+            if obs.violations:
+                break
+            model_resync(world)
+            refused_before = True
+            if exact and any((Fraction(float(x)) / Fraction(q)).denominator != 1 for x in vols.flatten()):
+                exact = False  # a call on the edge of a limit left a value off the dyadic grid: float round-off from here on
+            continue
         if step.exc is not None:
             obs.cls("ended-by-" + type(step.exc).__name__)
             break
+        if refused_before:
+            obs.cls("accepted-after-refused")
+        if exact and any((Fraction(float(dv)) / Fraction(q)).denominator != 1 for _, _, dv, _ in pairs):
+            exact = False  # a volume off the dyadic grid (one ulp beside a limit): float round-off from here on
         model_apply(world, conc)
         accepted += 1
         vols = lw.volumes
@@ -111,7 +133,7 @@ def check_case(case) -> Obs:
         touched = {idx for _, idx, _, _ in pairs}
         for idx in model.wells():
             real = float(vols[idx])
-            if q:
+            if exact:
                 ok = Fraction(real) == model.vol[idx]
             else:
                 m = float(model.vol[idx])
